@@ -542,6 +542,17 @@ class Mini:
     def cast0(self, v, frm, to):
         if to.startswith(("*const", "*mut")):
             return v  # pointer casts keep the object (identity is what std::ptr::eq compares)
+        if to in INT_BITS and isinstance(v, tuple) and len(v) == 2 and v[0] == "variant" and isinstance(v[1], str):
+            # a fieldless enum variant cast to an integer: its discriminant (from the ADT facts)
+            ty, _, var = self.canon(v[1]).rpartition("::")
+            for cname, F in self.FB.items():
+                for cand in (ty, "crate::" + ty.split("::", 1)[1] if ty.split("::", 1)[0] == cname and "::" in ty else ty):
+                    adt = F.adt(cand)
+                    if adt is not None and adt["kind"] == "Enum":
+                        for vr in adt["variants"]:
+                            if vr[0] == var and not vr[2]:
+                                return self.cast0(int(vr[1]), "i128", to)
+            raise Unsupported(f"cast of {v[1]} to {to}: discriminant unknown")
         if to in INT_BITS:
             if isinstance(v, bool):
                 return int(v)
@@ -1176,12 +1187,25 @@ class Mini:
                 return (a0 in recv) if nm == "contains" else recv.startswith(a0) if nm == "starts_with" else recv.endswith(a0)
         if nm == "contains" and isinstance(recv, tuple) and recv and recv[0] in ("range", "rangeincl") and len(args) == 1 and all(isinstance(x, int) and not isinstance(x, bool) for x in (recv[1], recv[2], args[0])):
             return recv[1] <= args[0] <= recv[2] if recv[0] == "rangeincl" else recv[1] <= args[0] < recv[2]
+        if nm in ("get", "first", "last") and isinstance(recv, list) and p.startswith(("std::slice::<impl [T]>::", "std::vec::Vec")):
+            if nm == "get" and len(args) == 1 and isinstance(args[0], int) and not isinstance(args[0], bool):
+                return ("Some", recv[args[0]]) if 0 <= args[0] < len(recv) else "None"
+            if nm == "get" and len(args) == 1 and isinstance(args[0], tuple) and args[0] and args[0][0] in ("range", "rangefrom", "rangeincl"):
+                r_ = args[0]
+                lo_ = r_[1]
+                hi_ = len(recv) if r_[0] == "rangefrom" else r_[2] + (1 if r_[0] == "rangeincl" else 0)
+                if isinstance(lo_, int) and isinstance(hi_, int):
+                    return ("Some", recv[lo_:hi_]) if 0 <= lo_ <= hi_ <= len(recv) else "None"
+            if nm in ("first", "last") and not args:
+                return ("Some", recv[0 if nm == "first" else -1]) if recv else "None"
         if nm == "contains" and isinstance(recv, list) and len(args) == 1 and p.startswith(("std::slice::<impl [T]>::", "std::vec::Vec")):
             a0 = args[0].get() if isinstance(args[0], Ref) else args[0]
             return any(x == a0 for x in recv)
         if p.startswith("std::slice::<impl [T]>::") and nm == "fill" and isinstance(recv, list) and len(args) == 1:
             recv[:] = [args[0]] * len(recv)
             return ()
+        if p.startswith(("std::option::Option::<&T>::", "std::option::Option::<&mut T>::")) and nm in ("copied", "cloned") and not args:
+            return ("Some", recv[1].get()) if isinstance(recv, tuple) and len(recv) == 2 and recv[0] == "Some" and isinstance(recv[1], Ref) else recv
         if p in ("std::cmp::Ord::min", "std::cmp::Ord::max") and isinstance(recv, int) and len(args) == 1 and isinstance(args[0], int) and not isinstance(recv, bool):
             return min(recv, args[0]) if nm == "min" else max(recv, args[0])
         if p == "std::cmp::Ord::clamp" and all(isinstance(x, int) and not isinstance(x, bool) for x in [recv] + args) and len(args) == 2:
